@@ -6,6 +6,11 @@ pub fn validate_addr_or_default(deps: &Deps, unvalidated: Option<Str>, default: 
     ensures r@ == (match unvalidated { Some(s) => if addr_valid(s@) { s@ } else { default@ }, None => default@ })
 { unimplemented!() }
 
+/// mantra-dex-std `aggregate_coins`: sums coins of equal denom and sorts by denom (only used for reporting lists here)
+#[verifier::external_body]
+pub fn aggregate_coins(coins: Vec<Coin>) -> (r: Result<Vec<Coin>, StdError>)
+{ unimplemented!() }
+
 impl<T> IterExt<T> for [T; 2] {
     open spec fn elems(&self) -> Seq<T> { self@ }
     #[verifier::external_body]
